@@ -116,6 +116,31 @@ Theorem C18_sweep_eq_lambda : forall D land, valid_diagram D -> eps_separated D 
 Proof. exact sweep_eq_lambda. Qed.
 Print Assumptions C18_sweep_eq_lambda.
 
+(* the fuel of the transcription (a Coq artefact; the C++ loops have none) never runs out ... *)
+Theorem C18_construct_total : forall D, exists land, construct D 0 = Some land.
+Proof. exact construct_total. Qed.
+Print Assumptions C18_construct_total.
+
+(* ... so that for every admissible diagram the transcribed constructor returns a landscape all of whose levels evaluate
+   to the definition *)
+Theorem C18_landscape_equals_definition : forall D, valid_diagram D -> eps_separated D -> bounded_diagram D ->
+  exists land, construct D 0 = Some land /\
+    forall k t, - INF < t -> t < INF -> exists v, value_at land k t = Some v /\ v == lambda D k t.
+Proof. exact landscape_equals_definition. Qed.
+Print Assumptions C18_landscape_equals_definition.
+Example C18_landscape_equals_definition_nonvacuous :
+  let D := [(0, 6 # 1); (0, 2 # 1); (0, 4 # 1); (2 # 1, 4 # 1); (4 # 1, 8 # 1)] in
+  valid_diagram D /\ eps_separated D /\ bounded_diagram D.
+Proof.
+  repeat split.
+  - intros bd H. simpl in H. repeat (destruct H as [H|H]; [subst bd; simpl; discriminate|]). destruct H.
+  - intros a b Ha Hb. simpl in Ha, Hb.
+    repeat (destruct Ha as [Ha|Ha]; [subst a|]); try destruct Ha;
+    repeat (destruct Hb as [Hb|Hb]; [subst b|]); try destruct Hb; simpl; intros H; try reflexivity; try discriminate H.
+  - simpl in H. repeat (destruct H as [H|H]; [subst bd; reflexivity|]). destruct H.
+  - simpl in H. repeat (destruct H as [H|H]; [subst bd; reflexivity|]). destruct H.
+Qed.
+
 (* ---------------------------------------------------------------- piecewise-linear functions *)
 (* a PL function takes its ordinate at each of its breakpoints *)
 Theorem C18_interp_at_breakpoint : forall l p, xsorted l -> In p l -> interp l (fst p) == snd p.
